@@ -152,6 +152,9 @@ func (t *taint) analyse(fn *ssa.Function) map[ssa.Value]*tval {
 					}
 					// NaN-preserving library arithmetic
 					n := ir.CallName(x)
+					if n == "math.NaN" || n == "math.Inf" {
+						changed = add(x, nil, n+"() at "+t.c.P.Pos(x.Pos())) || changed
+					}
 					if strings.HasPrefix(n, "math.") && n != "math.IsNaN" && n != "math.IsInf" && isFloatOrInt(x.Type()) {
 						for _, a := range x.Call.Args {
 							if f, ok := tv[ir.Resolve(a)]; ok {
@@ -260,7 +263,7 @@ func (t *taint) solve(funcs []*ssa.Function) {
 }
 
 func c08(c *Ctx) {
-	c.R.Explanation = "C08: only the fault clause is decided ('a failed or non-finite read leaves the smoothed value unchanged'). R-propagate = in every Sensor.GetValue implementation (and util.ReadIntFromFile) every return reachable from the err != nil edge of an error-returning call carries a non-nil error (no failure is converted into a value). R-fresh = no Sensor.GetValue implementation reads through an open handle (os.File, bufio.Reader, ...) remembered in a field of the sensor object: the configured source is opened anew on every poll, so a deleted or replaced file is a failed read. R-skip = in the call tree of the sensor-monitor actor no path from the error edge of Sensor.GetValue reaches Sensor.SetMovingAvg or util.UpdateSimpleMovingAvg. R-finite = interprocedural taint: a value that originates from strconv.ParseFloat (the only source of NaN/±Inf; Atoi-based sources cannot produce them), followed through conversions, arithmetic, phi, locals, math.* and function returns (invokes resolved to all implementations), must cross edges establishing !math.IsNaN and !math.IsInf(.,0) before it reaches UpdateSimpleMovingAvg / SetMovingAvg in the monitor. R-propagate also covers util.SafeCmdExecution (every failure edge of the command run leads to a non-nil error: a command that exits non-zero is a failed read, whatever it printed). Not decided: the hull and the geometric convergence rate (floating-point arithmetic over arbitrary sequences)."
+	c.R.Explanation = "C08: only the fault clause is decided ('a failed or non-finite read leaves the smoothed value unchanged'). R-propagate = in every Sensor.GetValue implementation (and util.ReadIntFromFile) every return reachable from the err != nil edge of an error-returning call carries a non-nil error (no failure is converted into a value). R-fresh = no Sensor.GetValue implementation reads through an open handle (os.File, bufio.Reader, ...) remembered in a field of the sensor object: the configured source is opened anew on every poll, so a deleted or replaced file is a failed read. R-skip = in the call tree of the sensor-monitor actor no path from the error edge of Sensor.GetValue reaches Sensor.SetMovingAvg or util.UpdateSimpleMovingAvg. R-finite = interprocedural taint: a value that originates from strconv.ParseFloat, math.NaN() or math.Inf() (the sources of NaN/±Inf; Atoi-based sources cannot produce them), followed through conversions, arithmetic, phi, locals, math.* and function returns (invokes resolved to all implementations), must cross edges establishing !math.IsNaN and !math.IsInf(.,0) before it reaches UpdateSimpleMovingAvg / SetMovingAvg in the monitor or in the instantiation code that seeds the average with the first reading. R-propagate also covers util.SafeCmdExecution (every failure edge of the command run leads to a non-nil error: a command that exits non-zero is a failed read, whatever it printed). Not decided: the hull and the geometric convergence rate (floating-point arithmetic over arbitrary sequences)."
 	c.R.Assumptions = append(c.R.Assumptions,
 		"strconv.Atoi/ParseInt cannot yield non-finite values; strconv.ParseFloat accepts nan/inf",
 		"the initial seeding of the average in InitializeObjects is not a poll (the statement's hull includes the initial value)")
@@ -349,7 +352,27 @@ func c08(c *Ctx) {
 		}
 	}
 	nsink := 0
-	for _, fn := range monitorFns {
+	// the average is also written outside the monitor: the instantiation code seeds it with the first reading
+	sinkFns := append([]*ssa.Function{}, monitorFns...)
+	inSink := map[*ssa.Function]bool{}
+	for _, f := range sinkFns {
+		inSink[f] = true
+	}
+	for _, f := range c.P.Funcs {
+		if load_FuncPkgPath(f) != PkgInternal || inSink[f] || len(f.Blocks) == 0 {
+			continue
+		}
+		has := false
+		Calls(f, func(cc ssa.CallInstruction) {
+			if isAvgSink(cc) {
+				has = true
+			}
+		})
+		if has {
+			sinkFns = append(sinkFns, f)
+		}
+	}
+	for _, fn := range sinkFns {
 		tv := t.analyse(fn)
 		Calls(fn, func(cc ssa.CallInstruction) {
 			if !isAvgSink(cc) {
